@@ -235,7 +235,7 @@ def extra_attr_cases(tag):
             for name, val in perts:
                 d = apply(b, path, val)
                 for xn in pextra if on_child else mextra:
-                    for xv in ("", "0"):
+                    for xv in ("", "0", "junk"):
                         if on_child:
                             ch = list(d[3])
                             ct, ca, ctext = ch[path[1]]
